@@ -19,6 +19,8 @@
 #include <iostream>
 #include <sstream>
 #include <limits>
+#include <csignal>
+#include <unistd.h>
 #include <GeographicLib/Constants.hpp>
 
 namespace gv {
@@ -75,6 +77,9 @@ inline void run(const std::string& op, const Args& a) {
   if (it == registry().end()) { std::printf("#BAD harness :: %s%s :: unknown op\n", op.c_str(), join(a).c_str()); return; }
   current_op() = op + join(a);
   stat("evaluations");
+  // announce the op before running it (stdout is line buffered): if the process dies inside the library the
+  // orchestrator finds the op that was executing as the last "#RUN" line
+  std::printf("#RUN %s\n", current_op().c_str());
   it->second(a);
 }
 inline void out(const Args& a, const std::string& res) {
@@ -100,9 +105,12 @@ inline void on_death() {
 
 inline int main_(int argc, char** argv) {
   std::string mode = argc > 1 ? argv[1] : "gen";
+  static char outbuf[1 << 16];
+  std::setvbuf(stdout, outbuf, _IOLBF, sizeof outbuf);
 #if defined(__SANITIZE_ADDRESS__) || defined(__SANITIZE_THREAD__)
   __sanitizer_set_death_callback(on_death);
 #endif
+  std::signal(SIGABRT, [](int) { on_death(); _exit(134); });
   if (mode == "gen") {
     std::string tier = argc > 2 ? argv[2] : "quick";
     uint64_t seed = argc > 3 ? std::strtoull(argv[3], nullptr, 10) : 1;
